@@ -143,8 +143,10 @@ func (l *Lexer) bracesToken(tok token.TokenType, literal string) token.Token {
 }
 
 func (l *Lexer) illegalToken() token.Token {
+	c := l.char
 	l.tokenBegins()
-	return l.newToken(token.ILLEGAL, string(l.char))
+	l.readChar() // consume the illegal character
+	return l.newToken(token.ILLEGAL, string(c))
 }
 
 func (l *Lexer) directiveToken() token.Token {
